@@ -559,6 +559,34 @@ Definition table_accounted (t : tbl) : bool := forallb entry_accounted t.
 Definition goroutines_present (t : tbl) : bool :=
   forallb (fun k => has_go t (fst k) (snd k)) known_goroutines.
 
+(* A goroutine entry is protected when its entry function registers, at its top level, a
+   deferred function that calls recover() directly: then NO panic raised anywhere on that
+   goroutine (in code the fault classes do not name, in callbacks) can end the process. *)
+Definition entry_protected (t : tbl) (f : string) : bool :=
+  existsb (fun e => match e with
+                    | Defer _ f' _ top _ direct _ _ => String.eqb f' f && top && direct
+                    | _ => false
+                    end) t.
+
+Definition goroutine_eqb (a b : string * string) : bool :=
+  String.eqb (fst a) (fst b) && String.eqb (snd a) (snd b).
+
+(* the goroutines of the tree as pinned whose entry has no effective recover *)
+Definition unprotected_goroutines : list (string * string) := [
+  ("socket.Handler.BindContext", "socket.Handler.bind");      (* only `defer cancel()`; runs Accept and OnError callbacks *)
+  ("socket.Transport.getConn", "socket.conn.Send");           (* recover() inside conn.Exit: one frame too deep *)
+  ("socket.Transport.getConn", "socket.conn.Receive");
+  ("udp.Transport.getConn", "udp.conn.Send");
+  ("udp.Transport.getConn", "udp.conn.Receive");
+  ("websocket.Transport.getConn", "websocket.conn.Send");
+  ("websocket.Transport.getConn", "websocket.conn.Receive");
+  ("mock.Transport.Transport", "mock.Transport.Transport$1"); (* no defer at all *)
+  ("plugins/reverse.Provider.dispatch", "plugins/reverse.Provider.dispatch$1");  (* relies on Provider.process' own recover *)
+  ("plugins/reverse.Provider.Listen", "plugins/reverse.Provider.dispatch")       (* runs proxy.end and OnError callbacks *)
+].
+
+Definition unprotected (g : string * string) : bool := existsb (goroutine_eqb g) unprotected_goroutines.
+
 (* ------------------------------------------------------------------------------------ *)
 (* 8. names for the driver                                                                *)
 
